@@ -1,8 +1,10 @@
 #!/bin/sh
 # MANIFEST.hooks.baseline_off_cmd: the repository's own suite with the `verif` guard OFF (no -tags verif).
+# Same modules and flags as /root/.vp/BASELINE.json; a module without Go packages (./assets) is not an error.
 export GOFLAGS=-mod=mod GOPROXY=off GOSUMDB=off GOTOOLCHAIN=local
 rc=0
 for m in . ./assets ./exp ./zapgrpc/internal/test; do
+  if [ -z "$(cd /repo/$m && go list ./... 2>/dev/null)" ]; then continue; fi
   (cd /repo/$m && go test -mod=mod -json -vet=off -count=1 -timeout 25m ./...) || rc=1
 done
 exit $rc
